@@ -1,4 +1,6 @@
 import Fv.Lemmas.ChainBAll
+import Fv.Lemmas.MpscUBInv
+import Fv.Lemmas.MpmcUBProj
 /-!
 # ChainB — the slab-backed Vyukov chain (`channels/src/internal/slab_chain.rs`), step level
 
@@ -518,5 +520,157 @@ example : ∃ s, Reach cfg2 s ∧ s.k ≤ 0 ∧ 0 < s.len ∧ s.next (s.at_ 0) =
     have h1 : (run cfg2 init tr).map (fun s => (s.k, s.len, s.next (s.at_ 0))) = some (0, 1, none) := by decide
     rw [hr] at h1; simp at h1
     exact ⟨s, reach_run _ _ _ Reach.init hr, by omega, by omega, h1.2.2⟩
+
+
+/-! ## The unbounded mpsc channel on the chain (`Fv.Chan.MpscUB`; flavours mpsc_u, mpsc_u_async) -/
+
+namespace Mpsc
+open Fv.Chan
+
+/-- **Embedding.** Every step of the channel model is at most one step of the chain model on its
+chain component; so every theorem above holds of `s.ch` for every reachable channel state. -/
+theorem chain_reachable {cfg : MpscUB.Cfg} {s : MpscUB.State} (h : MpscUB.Reach cfg s) :
+    ChainB.Reach cfg.chain s.ch := MpscUB.reach_chain h
+
+/-- **C01 / C02 at the API.** The values handed to receive calls so far (`taken`: returned by
+completed calls or destroyed by the receiver's close drain, in call order), followed by those the
+running receive has collected (`rout`) and the one a running `pop_node` holds, are exactly the
+consumed prefix of the swap order: every published value is delivered at most once, in swap order
+(per-producer FIFO, batches contiguous), and nothing is delivered that was not sent. -/
+theorem received_is_consumed_prefix {cfg : MpscUB.Cfg} {s : MpscUB.State} (hN : 0 < cfg.chain.N)
+    (h : MpscUB.Reach cfg s) :
+    s.taken ++ s.rout ++ ChainB.cPend s.ch.cpc = s.ch.recvd ∧ s.ch.recvd <+: s.ch.sent := by
+  refine ⟨(MpscUB.invA_reach h).out.symm, ?_⟩
+  exact V1_recvd_prefix hN (MpscUB.reach_chain h)
+
+/-- Between receive calls nothing is in flight: `taken` is exactly what left the chain. -/
+theorem idle_taken_exact {cfg : MpscUB.Cfg} {s : MpscUB.State} (h : MpscUB.Reach cfg s) (hi : s.rpc = MpscUB.RPC.idle) :
+    s.taken = s.ch.recvd := by
+  have hA := MpscUB.invA_reach h
+  have h1 := hA.quiet (by rw [hi]; rfl)
+  have h2 := hA.pend (by rw [hi]; simp)
+  have := hA.out
+  rw [h1, h2] at this
+  simpa using this.symm
+
+/-- **C04 (straggler) at the chain level, transferred.** When the consumer has read
+`sender_count == 0` and its next pop finds nothing, every published value has been consumed. -/
+theorem disconnected_means_drained {cfg : MpscUB.Cfg} {s : MpscUB.State} (hN : 0 < cfg.chain.N)
+    (h : MpscUB.Reach cfg s) (h0 : s.ch.senders = 0) (hn : s.ch.next s.ch.tail = none) :
+    s.ch.k = s.ch.len ∧ s.ch.recvd ++ s.ch.dropped = s.ch.sent :=
+  straggler_drained hN (MpscUB.reach_chain h) h0 hn
+
+/-- **C09 at teardown, transferred.** Once the last handle is gone and the `Drop` walk has finished:
+every published value was handed to a receive call (or discarded by the close drain) or destroyed by
+the walk - exactly once -, no node holds a value, every slab is pooled or freed. -/
+theorem teardown {cfg : MpscUB.Cfg} {s : MpscUB.State} (hN : 0 < cfg.chain.N) (h : MpscUB.Reach cfg s)
+    (hf : s.ch.cpc = ChainB.CPC.finished) :
+    s.taken ++ s.rout ++ s.ch.dropped = s.ch.sent ∧ (∀ n, s.ch.val n = none) ∧
+    (∀ b, b < s.ch.nextSlab → s.ch.sst b = ChainB.SlabSt.pooled ∨ s.ch.sst b = ChainB.SlabSt.freed) := by
+  have ht := teardown_complete hN (MpscUB.reach_chain h) hf
+  have ho := (MpscUB.invA_reach h).out
+  refine ⟨?_, ht.2.1, ht.2.2⟩
+  rw [hf] at ho
+  simp at ho
+  rw [← ho]; exact ht.1
+
+end Mpsc
+
+/-! ## The unbounded mpmc channel on the chain (`Fv.Chan.MpmcUB`; flavours mpmc_u, mpmc_u_async) -/
+
+namespace Mpmc
+open Fv.Chan
+
+theorem chain_reachable {cfg : MpmcUB.Cfg} {s : MpmcUB.State} (h : MpmcUB.Reach cfg s) :
+    ChainB.Reach cfg.chain s.ch := MpmcUB.reach_chain h
+
+/-- C01 / C02 for mpmc_u: whatever the receivers took out of the chain - under the consumer mutex,
+by any number of receiver handles - is a prefix of the swap order, so each consumer's received
+subsequence of any one producer is in that producer's send order. -/
+theorem received_prefix {cfg : MpmcUB.Cfg} {s : MpmcUB.State} (hN : 0 < cfg.chain.N) (h : MpmcUB.Reach cfg s) :
+    s.ch.recvd <+: s.ch.sent := V1_recvd_prefix hN (MpmcUB.reach_chain h)
+
+theorem disconnected_means_drained {cfg : MpmcUB.Cfg} {s : MpmcUB.State} (hN : 0 < cfg.chain.N)
+    (h : MpmcUB.Reach cfg s) (h0 : s.ch.senders = 0) (hn : s.ch.next s.ch.tail = none) :
+    s.ch.k = s.ch.len ∧ s.ch.recvd ++ s.ch.dropped = s.ch.sent :=
+  straggler_drained hN (MpmcUB.reach_chain h) h0 hn
+
+theorem teardown_chain {cfg : MpmcUB.Cfg} {s : MpmcUB.State} (hN : 0 < cfg.chain.N) (h : MpmcUB.Reach cfg s)
+    (hf : s.ch.cpc = ChainB.CPC.finished) :
+    s.ch.recvd ++ s.ch.dropped = s.ch.sent ∧ (∀ n, s.ch.val n = none) ∧
+    (∀ b, b < s.ch.nextSlab → s.ch.sst b = ChainB.SlabSt.pooled ∨ s.ch.sst b = ChainB.SlabSt.freed) :=
+  teardown_complete hN (MpmcUB.reach_chain h) hf
+
+/-! ### C06 for mpmc_u_async: F2 -/
+
+/-- no thread is inside an API call -/
+def Quiet (s : MpmcUB.State) : Prop := ∀ t, s.tpc t = MpmcUB.TPC.idle
+
+/-- Intended (C06): in a state where no call is running, a pending receive future of handle `r`
+that is registered as a waiter while an item is visible behind the cursor (or every sender is gone)
+has had its waker invoked since its last poll. -/
+def C06_pending_is_woken_statement (cfg : MpmcUB.Cfg) : Prop :=
+  ∀ s r fu, MpmcUB.Reach cfg s → Quiet s → s.rfut r = some fu → s.reg r ≠ none →
+    ((s.ch.next s.ch.tail).isSome = true ∨ s.ch.senders = 0) → 0 < s.wakes fu.id
+
+def advs (t n : Nat) : List (Nat × MpmcUB.Label) := List.replicate n (t, .adv)
+
+/-- two receiver handles with one pending future each (`f0` on `r0`, `f1` on `r1`); one value is sent:
+`notify_receivers` pops `r0`'s entry, marks its cell NOTIFIED and wakes `f0`; `f0` is dropped: `cancel_wait`
+finds its entry gone, the cell NOTIFIED (not FULFILLED) and does nothing. -/
+def f2Trace : List (Nat × MpmcUB.Label) :=
+  [(0, .callR 0 (.clone 1)), (0, .adv), (0, .ret),
+   (0, .callR 0 (.mkFut 0 1)), (0, .ret), (0, .callR 1 (.mkFut 1 1)), (0, .ret),
+   (0, .callR 0 .poll)] ++ advs 0 13 ++ [(0, .ret), (0, .callR 1 .poll)] ++ advs 0 13 ++ [(0, .ret),
+   (0, .callS 0 (.send [7]))] ++ advs 0 15 ++ [(0, .ret),
+   (0, .callR 0 .dropFut)] ++ advs 0 3 ++ [(0, .ret)]
+
+/-- **F2 (known finding) on the model.** After `f2Trace`: `f0`'s waker was invoked once, `f1`'s never;
+`f1` is still pending and registered; the value 7 is visible behind the cursor; a sender is alive; nobody
+is running.  The wake-one was consumed by a future that was then dropped and is not passed on: `f1` is never
+woken although its receive can complete.  Replay: /verif/corpus/chainb/f2_mpmc_u_async.case
+(`chanh run`: monitor `mpmc_u_async:recv_fut:pending-enabled-not-woken:after-woken-future-dropped`). -/
+theorem C06_fails_F2_mpmcU :
+    (MpmcUB.run {} MpmcUB.init f2Trace).map (fun s => (s.wakes 0, s.wakes 1, (s.rfut 1).isSome, s.reg 1)) =
+      some (1, 0, true, some 1) ∧
+    (MpmcUB.run {} MpmcUB.init f2Trace).map (fun s => ((s.ch.next s.ch.tail).isSome, s.ch.senders)) =
+      some (true, 1) ∧
+    (MpmcUB.run {} MpmcUB.init f2Trace).map (fun s => (s.tpc 0, s.rpc 0, s.rpc 1, s.spc 0)) =
+      some (MpmcUB.TPC.idle, MpmcUB.RPC.idle, MpmcUB.RPC.idle, MpmcUB.SPC.idle) := by
+  decide
+
+/-- The full C06 statement is false of the code (witnessed by `f2Trace`). -/
+theorem C06_pending_is_woken_statement_false : ¬ C06_pending_is_woken_statement {} := by
+  intro hst
+  have hw := C06_fails_F2_mpmcU
+  cases hr : MpmcUB.run {} MpmcUB.init f2Trace with
+  | none => rw [hr] at hw; simp at hw
+  | some s =>
+    rw [hr] at hw
+    simp only [Option.map_some, Option.some.injEq, Prod.mk.injEq] at hw
+    obtain ⟨⟨_, hw1, hfut, hreg⟩, ⟨hnext, hsend⟩, ⟨htpc0, _, _, _⟩⟩ := hw
+    have hreach : MpmcUB.Reach {} s := MpmcUB.reach_run _ _ _ MpmcUB.Reach.init hr
+    have hquiet : Quiet s := by
+      intro t
+      by_cases ht : t = 0
+      · subst ht; exact htpc0
+      · have := MpmcUB.run_tpc_other (cfg := {}) 0 f2Trace (by decide) MpmcUB.init s hr t ht
+        rw [this]; rfl
+    cases hf : s.rfut 1 with
+    | none => rw [hf] at hfut; simp at hfut
+    | some fu =>
+      have hid : fu.id = 1 := by
+        have : (MpmcUB.run {} MpmcUB.init f2Trace).map (fun s => (s.rfut 1).map (·.id)) = some (some 1) := by decide
+        rw [hr] at this; simp [hf] at this; exact this
+      have := hst s 1 fu hreach hquiet hf (by rw [hreg]; simp) (Or.inl hnext)
+      rw [hid, hw1] at this
+      exact absurd this (by decide)
+
+/-- What is proved for mpmc_u(_async) wake-ups at step level: the tie (every real execution is a model
+execution) and this witness.  The inductive no-lost-wakeup invariant under the hypothesis "no future whose
+cell is NOTIFIED is dropped before its next poll" is NOT proved in Lean for the mpmc model (gap). -/
+theorem C06_partial_note : True := trivial
+
+end Mpmc
 
 end Fv.Props.ChainB
